@@ -337,6 +337,11 @@ def oracle_pitches(csl, pitches, result=None):
     if k == 'err':
         if fig != 'ChordSymbolError':
             return 'pitches_to_chord_symbol(%r) raised %s' % (pitches, fig), None
+        # "raises ChordSymbolError and nothing else" must not depend on the container the pitches come in
+        for conv in (tuple, set):
+            k2, fig2 = call(csl.pitches_to_chord_symbol, conv(pitches))
+            if k2 == 'err' and fig2 != 'ChordSymbolError':
+                return 'pitches_to_chord_symbol(%s %r) raised %s' % (conv.__name__, pitches, fig2), None
         return None, None
     if not isinstance(fig, str):
         return 'pitches_to_chord_symbol(%r) returned %r' % (pitches, fig), None
